@@ -34,7 +34,9 @@ SHRINK_DICTS = ("world/files", "world/env", "world/symlinks", "world/dirmodes", 
 
 INNER = {"opts": {"exit_on_error": False}, "args": [{"k": "arg", "name": "q", "type": "int", "default": 0}, {"k": "arg", "name": "v", "type": "list_float", "default": [0.5]}, {"k": "arg", "name": "ip", "type": "opt_path_fr", "default": None}, {"k": "arg", "name": "pr", "type": "opt_probe", "default": None}]}
 
-FEATS = ["inner1", "inner2", "dct", "obj", "p", "pr", "x", "req", "dg", "jn", "js"]
+DEEP = {"opts": {"exit_on_error": False}, "args": [{"k": "arg", "name": "r", "type": "int", "default": 0}, {"k": "arg", "name": "w", "type": "list_float", "default": [1.5]}]}
+INNER_DEEP = {"opts": INNER["opts"], "args": INNER["args"] + [{"k": "inner", "name": "deep", "spec": DEEP}]}
+FEATS = ["inner1", "inner2", "dct", "obj", "p", "pr", "x", "req", "dg", "jn", "js", "deep"]
 
 
 def parser_spec(feats):
@@ -49,7 +51,7 @@ def parser_spec(feats):
         args.append({"k": "arg", "name": "p", "type": "opt_path_fr", "default": None})
     for n in ("inner1", "inner2"):
         if n in feats:
-            args.append({"k": "inner", "name": n, "spec": INNER})
+            args.append({"k": "inner", "name": n, "spec": INNER_DEEP if (n == "inner1" and "deep" in feats) else INNER})
     if "dct" in feats:
         args.append({"k": "arg", "name": "dct", "type": "dict_str_int", "default": {}, "enable_path": True})
     if "obj" in feats:
@@ -87,6 +89,13 @@ def generate(rng, tier):
                 sub["ip"] = "$W/data/pa.txt"
             if rng.random() < 0.3:
                 sub["pr"] = "p:sub"
+            if n == "inner1" and "deep" in feats:
+                dp = {"r": rng.randint(1, 9), "w": [rng.randint(1, 9) + 0.5]}
+                if rng.random() < 0.7:
+                    files["src/B/C/deep.yaml"] = json.dumps(dp)
+                    sub["deep"] = "C/deep.yaml"
+                else:
+                    sub["deep"] = dp
             if rng.random() < 0.8:
                 files["src/B/%s.%s" % (n, ext)] = json.dumps(sub)
                 main[n] = "B/%s.%s" % (n, ext)
@@ -132,6 +141,8 @@ def generate(rng, tier):
             choices.append({"key": "pr", "value": 3})
         for n in ("inner1", "inner2"):
             if n in feats:
+                if n == "inner1" and "deep" in feats:
+                    choices.append({"key": "inner1.deep.r", "value": "bad"})
                 choices.append({"key": n + ".q", "value": "bad"})
                 choices.append({"key": n + ".zz", "value": 1})
         if "dct" in feats:
@@ -146,7 +157,7 @@ def generate(rng, tier):
     # state of the storage before the save
     target_name = rng.choice(["saved.yaml", "saved.yaml", "saved.json", "cfg"])
     pre = {}
-    names = [target_name] + [os.path.basename(v) for v in main.values() if isinstance(v, str) and v.startswith("B/")] + ["pa.txt"]
+    names = [target_name] + [os.path.basename(v) for v in main.values() if isinstance(v, str) and v.startswith("B/")] + ["pa.txt"] + (["deep.yaml"] if "src/B/C/deep.yaml" in files else [])
     for n in names:
         c = rng.random()
         if n == target_name:
@@ -154,7 +165,7 @@ def generate(rng, tier):
         else:
             kind = "absent" if c < 0.55 else "file" if c < 0.85 else "readonly" if c < 0.9 else "dir" if c < 0.95 else "symlink"
         pre[n] = kind
-    dirs = ["home", "run", "out", "src/B", "data"]
+    dirs = ["home", "run", "out", "src/B/C", "data"]
     symlinks = {}
     for n, kind in pre.items():
         if kind == "file":
